@@ -5,6 +5,7 @@ use crate::cell::{run_parallel, workers, Cell};
 use crate::evlog::Ev;
 use crate::mock::*;
 use crate::pgcat::{admin_query, admin_rows, Cfg, PoolCfg, StartOpts};
+use crate::proto;
 use crate::report::Report;
 use crate::sql::tag;
 use crate::util::{now_ns, sleep_ms, Rng};
@@ -566,6 +567,85 @@ fn random_faults(seed: u64, thorough: bool, rep: &Report) -> Result<(), String> 
 }
 
 /// all replicas banned => unban all; ban expiry; UNBAN.
+/// A replica that breaks while the pooler prepares a client's statement on it (statement cache on: the
+/// client's Bind lands on a server connection that does not have the statement yet, the pooler sends
+/// the Parse itself) fails that transaction only and is banned like any replica that breaks under a
+/// client's statement.
+fn broken_during_prepare(seed: u64, rep: &Report) -> Result<(), String> {
+    let mut cell = Cell::new();
+    let p = cell.add_mock("db.s0.primary.0");
+    let r0 = cell.add_mock("db.s0.replica.0");
+    let r1 = cell.add_mock("db.s0.replica.1");
+    let mut cfg = Cfg::new();
+    let mut pool = PoolCfg::single("db", USER, PASS, 1, vec![cell.server(p, "primary"), cell.server(r0, "replica"), cell.server(r1, "replica")]);
+    pool.set("default_role", "\"replica\"");
+    pool.set("prepared_statements_cache_size", "16");
+    cfg.pools.push(pool);
+    cfg.gset("ban_time", "60");
+    cell.start_pgcat(&cfg, &StartOpts::default()).map_err(|e| format!("start: {:?}", e))?;
+    let mut adm = cell.pg().admin().map_err(|e| format!("admin: {}", e))?;
+    let mut c = Conn::connect(&cell.addr(), &StartupOpts::new(USER, "db", PASS).app("pp")).map_err(|e| e.to_string())?;
+    let text = format!("SELECT 1 {}", tag("pp", "pp.prep", "rows=1"));
+    let mut b = proto::parse("s1", &text, &[]);
+    b.extend(proto::sync());
+    c.send(&b).map_err(|e| e.to_string())?;
+    c.read_until_ready(5000).map_err(|(m, e)| format!("prepare: {:?} {}", e, summarize(&m)))?;
+    sleep_ms(20);
+    // which replica has the statement now? the other one will break on its first Parse
+    let has: Vec<usize> = cell.log.snapshot().iter().filter_map(|e| match &e.ev { Ev::MockMsg { b, typ, qid: Some(q), .. } if *typ == b'P' && q == "pp.prep" => Some(*b), _ => None }).collect();
+    let with_stmt = match has.first() {
+        Some(b) if *b == r0 || *b == r1 => *b,
+        _ => return Err("the Parse did not arrive at a replica".into()),
+    };
+    let other = if with_stmt == r0 { r1 } else { r0 };
+    cell.mocks[other].ctl.close_on_parse.store(true, Ordering::SeqCst);
+    let other_label = cell.mocks[other].label.clone();
+    let other_host = cell.mocks[other].host();
+    let mut failed_once = false;
+    for k in 0..40 {
+        let mut b = proto::bind("", "s1", &[], &[], &[]);
+        b.extend(proto::execute("", 0));
+        b.extend(proto::sync());
+        if c.send(&b).is_err() {
+            failed_once = true;
+            break;
+        }
+        match c.read_until_ready(8000) {
+            Ok(m) if first_error(&m).is_none() => {}
+            _ => {
+                failed_once = true;
+                let _ = k;
+                break;
+            }
+        }
+    }
+    if !failed_once {
+        // forty transactions never landed on the other replica
+        rep.count("prepare_fault_never_reached", 1);
+        return Ok(());
+    }
+    rep.count("replica_broke_during_pooler_issued_prepare", 1);
+    sleep_ms(300);
+    let bans = crate::pgcat::admin_rows(&mut adm, "SHOW BANS")?;
+    let listed = bans.iter().any(|r| r.get("host").map(|h| *h == other_host).unwrap_or(false));
+    // and the following replica transactions of a fresh client stay away from it
+    cell.mocks[other].ctl.heal();
+    let n0 = cell.log.len();
+    let mut d = Conn::connect(&cell.addr(), &StartupOpts::new(USER, "db", PASS).app("pq")).map_err(|e| e.to_string())?;
+    for k in 0..12 {
+        let _ = d.query(&format!("SELECT 1 {}", tag("pq", &format!("pq.q{}", k), "rows=1")), 8000);
+    }
+    let reached = cell.log.since(n0).iter().filter(|e| matches!(&e.ev, Ev::MockMsg { b, qid: Some(q), .. } if *b == other && q.starts_with("pq."))).count();
+    if !listed || reached > 0 {
+        rep.violation(
+            "C07|replica_that_broke_while_a_statement_was_prepared_on_it_not_banned",
+            &format!("{} closed its connection while the pooler was preparing a client's statement on it: SHOW BANS lists it: {}; {} of the next 12 replica transactions were sent to it (ban_time 60 s)", other_label, listed, reached),
+            json!({"seed": seed, "bans": bans, "log_tail": cell.pg().log_tail(8)}),
+        );
+    }
+    Ok(())
+}
+
 fn scripted(seed: u64, rep: &Report) -> Result<(), String> {
     let mut rng = Rng::new(seed);
     let mut lay = build(&mut rng, 2, true, false)?;
@@ -830,11 +910,15 @@ pub fn run(tier: &str) -> i32 {
     let n = if thorough { 900 } else { 60 };
     let mut rng = Rng::new(rep.seed ^ 0xC07);
     let seeds: Vec<u64> = (0..n).map(|_| rng.next()).collect();
-    run_parallel(n, workers(), |i| {
+    // (half the cores: the scenarios' verdicts depend on 200-400 ms timeouts of the pooler, and
+    // sixteen cells of busy clients are themselves a load that delays health checks)
+    run_parallel(n, (workers() / 2).max(1), |i| {
         rep.eval(1);
         let r = rep.realtime_scenario(|| {
             if i % 6 == 5 {
                 scripted(seeds[i], &rep)
+            } else if i % 12 == 9 {
+                broken_during_prepare(seeds[i], &rep)
             } else if i % 12 == 3 {
                 hung_replica_and_impatient_clients(seeds[i], &rep)
             } else if i % 6 == 4 {
